@@ -1079,3 +1079,17 @@ def p_c04_xpoll(tr, V, st):
             if p.hup is not None and len(p.polltmos) < 2:
                 V.append(dict(sig='C04 interrupted poll was not repeated', at=p.i))
         prev = p
+
+
+def p_c17_sends(tr, V, st):
+    """what `specOK_sound` promises of the shipped specifications, seen on the wire: no send string is ever formatted without
+    the plug argument its %s needs (glibc prints `(null)` then), and no conversion other than %s/%% reaches vsnprintf"""
+    fd2dev = {}
+    for p in tr:
+        for di, d in p.devs.items():
+            if d.get('fd', -1) >= 0: fd2dev[d['fd']] = di
+        for fd, w in p.writes.items():
+            if fd < 2000 or fd not in fd2dev or not w['data']: continue
+            st['C17 device writes inspected'] += 1
+            if b'(null)' in w['data'] or b'[unresolved]' in w['data']:
+                V.append(dict(sig='C17 a send string was formatted without the plug argument its %s needs', at=p.i, dev=fd2dev[fd], data=repr(w['data'][:80])))
